@@ -20,6 +20,7 @@ RULE = (
     "Non-trivial = some key has set-after-delete or delete-after-set AND a key is "
     "read (get/contains) after its latest action was a delete; distinct = distinct "
     "canonical JSON of the case."
+    ' Added after the seeded rounds: the block is left by Exception / BaseException / KeyboardInterrupt / a falsy exception / a KeyError and may run inside an except handler; the wrapped db may be a defaultdict; fixed big batches (5 sizes up to 5000 keys x 4 write/delete patterns x do_deletes).'
 )
 ASSUMPTIONS = ["copy() is not asserted for keys whose latest buffered action is a delete (statement is silent)"]
 
